@@ -211,11 +211,12 @@ class CorpusShufflingTool:
                 cut = numpy.random.uniform(to_split.segment.start + security, to_split.segment.end)
 
 
-                try:
-                    continuum.add(annotator, Segment(cut, to_split.segment.end), to_split.annotation)
-                    continuum.add(annotator, Segment(to_split.segment.start, cut), to_split.annotation)
-                except ValueError:
-                    continuum.add(annotator, to_split.segment, to_split.annotation)
+                first_half = Segment(to_split.segment.start, cut)
+                second_half = Segment(cut, to_split.segment.end)
+                if first_half and second_half:
+                    continuum.add(annotator, second_half, to_split.annotation)
+                    continuum.add(annotator, first_half, to_split.annotation)
+                else:  # one half would be empty: the unit is left as it was
                     continuum.add(annotator, to_split.segment, to_split.annotation)
 
 
